@@ -3,7 +3,7 @@ from wiregen import *
 import math
 
 ID = "C07"
-THEOREM_MODULES = ["SimVerif.Props.C07", "SimVerif.Tie.Kalman"]
+THEOREM_MODULES = ["SimVerif.Props.C07", "SimVerif.Props.C07b", "SimVerif.Tie.Kalman"]
 THEOREM_MODULE = "SimVerif.Props.C07"
 NONTRIVIAL_FLAGS = {"multi-step", "long", "stationary", "rotated", "beyond-gate", "between-2dof-and-5dof-gates", "multi-point", "inverted"}
 RULE = ("`kf box|point|vec traj`: measurement sequences of 1..300 steps (moving, accelerating, jittering, shrinking/growing, rotated boxes, stationary objects; coordinates 1..1e4; position/velocity weights over the documented range); "
@@ -12,10 +12,10 @@ RULE = ("`kf box|point|vec traj`: measurement sequences of 1..300 steps (moving,
         "`kf cost box|point|vec d inverted` over d around both gates; non-trivial = multi-step / long / stationary / rotated trajectories, distances beyond or between the gates, inverted cost; distinct = distinct request line")
 TRUSTED_BASE = ["Lean 4.33 kernel", "axioms: propext, Quot.sound, Classical.choice (at most)",
                 "model SimVerif/Model/Kalman.lean (one constant-velocity filter per coordinate; noise constants and gate indices regenerated from the Rust source by translator/translate.py into Gen/Consts.lean) tied to src/utils/kalman/*.rs by one-step differential comparison on raw states (hook H2)",
-                "the reduction of the 10x10 / 4x4 matrix recursion to independent coordinates is checked on every reported state (off-pattern covariance entries are exactly those the model ignores; they must be 0 up to rounding)",
+                "the reduction of the 2n x 2n matrix recursion to independent coordinates is a theorem (Props/C07b: the textbook matrix filter on a covariance with four diagonal blocks is predict1 / update1 / dist1 per coordinate, and the pattern is invariant under every sequence of steps); that the implementation's matrices have that shape is checked on every reported state (off-pattern covariance entries must be 0 up to rounding)",
                 "f32 rounding and `cholesky().unwrap()` / `solve_lower_triangular` not panicking are observed, not proved"]
 ASSUMPTIONS = ["positive weights and heights", "finite measurements"]
-LEVEL_TEXT = ("Lean 4 theorems over every linear ordered field: prediction is m'=Fm, P'=FPF^T+Q; the update is the textbook posterior in closed form (precision-weighted mean, P - PH^T S^-1 HP); the covariance stays symmetric positive definite through predict and update; "
+LEVEL_TEXT = ("Lean 4 theorems over every linear ordered field. Matrix level (Mathlib Matrix, any number n of coordinates, state = positions then velocities, F=[[1,1],[0,1]], H=[1 0], diagonal Q and R): on a covariance whose four n x n blocks are diagonal the standard filter's prediction m'=Fm, P'=FPF^T+Q, innovation covariance S=HPH^T+R (diagonal), gain K with KS=PH^T, update m+K(z-Hm), P-KSK^T and squared Mahalanobis distance (z-Hm)^T S^-1 (z-Hm) are exactly the per-coordinate recursions of the model, and the block pattern is invariant under every sequence of predict/update steps from initiate (C07_blockdiag_inv), so the filter is n independent constant-velocity filters. Per coordinate: prediction is m'=Fm, P'=FPF^T+Q; the update is the textbook posterior in closed form (precision-weighted mean, P - PH^T S^-1 HP); the covariance stays symmetric positive definite through predict and update; "
               "with constant measurements the mean stays at the measurement with zero velocity for every step and every noise sequence; the distance is the squared Mahalanobis distance (Cholesky route = sum d_i^2/s_i over the reals); the vector filter is the point filter per component; "
               "inverted cost = upper bound - direct cost for every distance, and both branches of each calculate_cost use one gate, the 95% chi-square quantile of the filter's measurement dimension (indices regenerated from the source: a changed index or table breaks the theorem). "
               "One-step differential run on raw filter states.")
